@@ -32,6 +32,7 @@ def run(spec, profile=False):
     api._FAM.clear()
     api._FAM.update(spec.get('fam') or {})
     api._REACH = spec.get('mode') == 'reach'
+    api._EXCL[:] = []
     args = {k: _unjson(v) for k, v in (spec.get('args') or {}).items()}
     seen = []
     seen_set = set()
